@@ -137,6 +137,10 @@ func build(race bool, withTests bool) (workerBin string, instr *InstrResult, err
 	go func() { <-sig; cleanup(); os.Exit(2) }()
 	vd := verifDir()
 	repoCopy := filepath.Join(scratchRoot, "repo")
+	InstrumentTags = nil
+	if race {
+		InstrumentTags = []string{"race"}
+	}
 	instr, err = Instrument(repoDir(), repoCopy, filepath.Join(vd, "simrt", "simrt.go"), withTests)
 	if err != nil {
 		return "", nil, fmt.Errorf("instrument: %v", err)
